@@ -334,6 +334,60 @@ pub fn format(report: &TaxReport) -> Result<Vec<u8>, PdfError> {
     Ok(pdf)
 }
 
+/// One positioned run of text in the compiled (pre-export) document.
+#[cfg(feature = "verif-hooks")]
+#[derive(Debug, Clone, PartialEq)]
+pub struct VerifTextRun {
+    pub page: usize,
+    pub x: f64,
+    pub y: f64,
+    pub width: f64,
+    pub size: f64,
+    pub text: String,
+}
+
+/// Verification hook: compile the same template with the same data as [`format`] and
+/// return every text run of the laid-out pages (page, position in points, text),
+/// so the figures shown in the PDF can be read back without a PDF text extractor.
+#[cfg(feature = "verif-hooks")]
+pub fn verif_text_runs(report: &TaxReport) -> Result<Vec<VerifTextRun>, PdfError> {
+    use typst::layout::{Frame, FrameItem, PagedDocument, Point};
+
+    fn walk(frame: &Frame, origin: Point, page: usize, out: &mut Vec<VerifTextRun>) {
+        for (pos, item) in frame.items() {
+            let at = origin + *pos;
+            match item {
+                FrameItem::Group(group) => walk(&group.frame, at, page, out),
+                FrameItem::Text(text) => out.push(VerifTextRun {
+                    page,
+                    x: at.x.to_pt(),
+                    y: at.y.to_pt(),
+                    width: text.width().to_pt(),
+                    size: text.size.to_pt(),
+                    text: text.text.to_string(),
+                }),
+                _ => {}
+            }
+        }
+    }
+
+    let data = build_template_data(report)?;
+    let engine = TypstEngine::builder()
+        .main_file(TEMPLATE)
+        .fonts([ROBOTO_REGULAR, ROBOTO_BOLD])
+        .build();
+    let compiled = engine.compile_with_input::<_, PagedDocument>(data);
+    let doc = compiled
+        .output
+        .map_err(|e| PdfError::TypstCompilation(e.to_string()))?;
+
+    let mut runs = Vec::new();
+    for (index, page) in doc.pages.iter().enumerate() {
+        walk(&page.frame, Point::zero(), index, &mut runs);
+    }
+    Ok(runs)
+}
+
 pub struct PdfFormatter;
 
 impl Formatter for PdfFormatter {
